@@ -36,6 +36,16 @@ def configs(tier):
                         if api == 'group' and kw != 'dict':
                             continue
                         out.append({'n0': n0, 'n1': n1, 'axis': axis, 'kw': kw, 'api': api, 'ns': 2 if q else 3})
+    # column-major (Fortran-ordered) input, e.g. data loaded from .mat files
+    for n0, n1 in ((2, 3), (3, 2), (2, 2)):
+        for axis in ('both', '0', '1'):
+            if n0 != n1 and axis != 'both' and q:
+                continue
+            out.append({'n0': n0, 'n1': n1, 'axis': axis, 'kw': 'list' if (axis == 'both' and n0 == n1) else 'dict',
+                        'api': 'func', 'ns': 2, 'layout': 'F'})
+    # the same group object fitted twice on arrays of different shape
+    for n0, n1 in ((2, 2), (1, 3)):
+        out.append({'n0': n0, 'n1': n1, 'axis': 'both', 'kw': 'dict', 'api': 'group', 'ns': 2, 'refit': True})
     return out
 
 
@@ -56,6 +66,8 @@ def run(ctx, cfg):
     fit = ctx.mod('bycycle.objs.fit')
     vals = [[[ctx.real('x%d_%d_%d' % (i, j, k)) for k in range(ns)] for j in range(n1)] for i in range(n0)]
     arr = np.array([[list(s) for s in row] for row in vals], dtype=float)
+    if cfg.get('layout') == 'F':
+        arr = np.asfortranarray(arr)
     n_jobs = ctx.integer('n_jobs')
     ctx.assume(ctx.disj([n_jobs >= 1, n_jobs == -1]))
     cpu = ctx.integer('cpu_count')
@@ -99,6 +111,12 @@ def run(ctx, cfg):
             g_o, g_t = opt_at(0, 0)
             bg = fit.BycycleGroup(center_extrema=g_o['center_extrema'], burst_method=g_o['burst_method'],
                                   thresholds=dict(g_o['threshold_kwargs']), return_samples=rs)
+            if cfg.get('refit'):
+                other = np.array([[[float(10 * i + j)] * ns for j in range(3)] for i in range(2)], dtype=float)   # (2, 3, ns)
+                ctx.env.CUR.pool_order = None          # first fit: plain submission order (it is not the subject)
+                bg.fit(other, 500.0, (8.0, 12.0), axis=ax, n_jobs=1)
+                c11.install_pool(ctx)
+                del calls[:]
             bg.fit(arr, 500.0, (8.0, 12.0), axis=ax, n_jobs=n_jobs)
             res = bg.df_features
     except Exception as e:
